@@ -12,6 +12,7 @@ RULE = ('evaluations = public calls on a container stored in MiniDB (real '
         'of the same implementation, with cache sweeps (cache.minimize() or '
         '_p_deactivate() of a random node subset) injected between calls, '
         'inside key comparisons of a call (object-keyed families, FKey), and '
+        'at the n-th load inside a call (all families), and '
         'with deliberately failing calls; after EVERY single call each cached '
         'node is inspected for a leftover pin (_p_sticky); plus operations '
         'between TWO stored containers (set algebra, weighted operations, '
@@ -38,6 +39,10 @@ def must_see(tier):
             'failing-call:TypeError': 20, 'failing-call:KeyError': 20,
             'failing-call:ValueError': 5, 'failing-call:IndexError': 1,
             'c:mutate-reassign': 10, 'py:mutate-reassign': 10,
+            'c:sweep-at-load-inside-call': 200,
+            'py:sweep-at-load-inside-call': 200,
+            'c:sweep-at-load-inside-call:write': 50,
+            'py:sweep-at-load-inside-call:write': 50,
             'c:inload:sweep-inside-load': 100, 'py:inload:sweep-inside-load': 100,
             'c:inload:reload-after-in-load-sweep': 30,
             'py:inload:reload-after-in-load-sweep': 30,
@@ -102,7 +107,8 @@ def _inload_tagger(mech, d):
     # F38: a refused load while an in-place operator deletes from a stored
     # multi-leaf tree (the key is gone from the leaf before the nodes needed
     # to unlink the emptied leaf are loaded)
-    if (mech == 'tree-damaged' and d.get('refused') and d.get('which') == 'A'
+    if (mech in ('tree-damaged', 'contents-raised-afterwards')
+            and d.get('refused') and d.get('which') == 'A'
             and d.get('multi_leaf_a')
             and d.get('op') in ('iand', 'isub', 'ixor')):
         return 'F38'
@@ -638,11 +644,24 @@ def run_history(fam, kind, impl, mode, rng, rec, h):
                   and op in harness.SINGLE_KEY_OPS and rng.random() < 0.08)
         if refuse:
             conn.fail_read_current = 1
+        # a sweep at the n-th LOAD inside the call (every family: no key
+        # comparison of user code is needed for the cache to act while an
+        # operation is in the middle of its work)
+        sweeps0 = conn.incall_sweeps
+        if mode == 'between' and nghost > 0 and not refuse and \
+                rng.random() < 0.4:
+            conn.sweep_at_setstate = rng.randint(1, 3)
+            conn.sweep_leaves_only = impl == 'py'
         try:
             ro = do_call(c, op, rargs, None)
         finally:
             inject.disarm()
             conn.fail_read_current = 0
+            conn.sweep_at_setstate = 0
+        if conn.incall_sweeps > sweeps0:
+            rec.ev(impl + ':sweep-at-load-inside-call')
+            rec.ev(impl + ':sweep-at-load-inside-call:' + (
+                'write' if op in harness.MUTATING_OPS else 'read'))
         if refuse and ro[0] == 'exc' and ro[1] == 'DMBoom':
             rec.evaluations += 1
             rec.ev(impl + ':read-dependency-refused')
